@@ -152,8 +152,64 @@ fn run_batch(
 /// Executes the scenario on a brand-new OS thread (except for the pure loader configurations of
 /// C04): thread-local state of the engine and its dependencies starts empty, so a run is a
 /// function of its scenario and not of what the worker executed before.
+/// Scenarios whose subject is PROCESS-WIDE state under concurrency (configuration loadthreads)
+/// get a process of their own: what one scenario leaves in a process-wide table must not decide
+/// another scenario's outcome, or nothing found replays alone. The child is this binary
+/// (`tausim exec-scenario`), the scenario goes in on stdin, the outcome comes back on stdout.
+fn execute_in_child(sc: &Scenario) -> Option<exec::Outcome> {
+    use std::io::Write;
+    let mut child = std::process::Command::new(std::env::current_exe().ok()?)
+        .arg("exec-scenario")
+        .stdin(std::process::Stdio::piped())
+        .stdout(std::process::Stdio::piped())
+        .stderr(std::process::Stdio::null())
+        .spawn()
+        .ok()?;
+    child.stdin.take()?.write_all(serde_json::to_string(sc).ok()?.as_bytes()).ok()?;
+    let out = child.wait_with_output().ok()?;
+    let text = String::from_utf8_lossy(&out.stdout);
+    let line = text.lines().rev().find(|l| l.starts_with("{\"outcome\""))?;
+    let v: serde_json::Value = serde_json::from_str(line).ok()?;
+    let o = v.get("outcome")?;
+    Some(exec::Outcome {
+        violations: serde_json::from_value(o.get("violations")?.clone()).ok()?,
+        digest: o.get("digest")?.as_u64()?,
+        stats: serde_json::from_value(o.get("stats")?.clone()).ok()?,
+        trace: serde_json::from_value(o.get("trace")?.clone()).ok()?,
+    })
+}
+
+fn cmd_exec_scenario() -> i32 {
+    let mut text = String::new();
+    if std::io::Read::read_to_string(&mut std::io::stdin(), &mut text).is_err() {
+        return 2;
+    }
+    let sc: Scenario = match serde_json::from_str(&text) {
+        Ok(s) => s,
+        Err(_) => return 2,
+    };
+    IN_CHILD.store(true, std::sync::atomic::Ordering::Relaxed);
+    let o = execute_isolated(&sc);
+    println!(
+        "{}",
+        serde_json::json!({"outcome": {"violations": o.violations, "digest": o.digest, "stats": o.stats, "trace": o.trace}})
+    );
+    0
+}
+
+static IN_CHILD: std::sync::atomic::AtomicBool = std::sync::atomic::AtomicBool::new(false);
+
 fn execute_isolated(sc: &Scenario) -> exec::Outcome {
-    if sc.property == "C04" {
+    if sc.kind == "loadthreads" && !IN_CHILD.load(std::sync::atomic::Ordering::Relaxed) {
+        match execute_in_child(sc) {
+            Some(o) => return o,
+            None => {
+                println!("HARNESS-ERROR: child process for scenario {} {} run {} did not deliver an outcome", sc.property, sc.kind, sc.run);
+                std::process::exit(2);
+            }
+        }
+    }
+    if sc.property == "C04" && sc.kind != "loadthreads" {
         return props::execute(sc);
     }
     std::thread::scope(|s| {
@@ -529,7 +585,7 @@ fn cmd_check(a: &Args) -> i32 {
             let s3 = small.clone();
             std::thread::Builder::new()
                 .stack_size(STACK)
-                .spawn(move || props::execute(&s3))
+                .spawn(move || execute_isolated(&s3))
                 .unwrap()
                 .join()
                 .unwrap()
@@ -678,6 +734,7 @@ fn main() {
         Some("check") => cmd_check(&a),
         Some("replay") => cmd_replay(&a),
         Some("digest") => cmd_digest(&a),
+        Some("exec-scenario") => cmd_exec_scenario(),
         Some("selfcheck") => cmd_selfcheck(&a),
         _ => {
             eprintln!("usage: tausim check|replay|digest|selfcheck ...");
